@@ -38,6 +38,8 @@ structure Param where
   default : Obj
   /-- `allow_refs`: an async function assigned to the parameter is resolved and its result assigned -/
   allowRefs : Bool := false
+  /-- a `param.String` (the `name` parameter): `_validate` rejects a value that is neither a `str` nor None -/
+  strOnly : Bool := false
   deriving Repr, DecidableEq
 
 structure Cls where
@@ -64,6 +66,8 @@ structure St where
   insts : List Inst
   /-- next fresh object (auto-generated instance names) -/
   nextObj : Obj
+  /-- the value objects that are not strings (and not None) -/
+  nonStr : List Obj := []
   deriving Repr, DecidableEq
 
 inductive Res
@@ -102,6 +106,14 @@ inductive Op
   /-- `async def f(): return v` then `setattr(obj, n, f)`, no event loop running (the reference is
   resolved synchronously inside the assignment); only for `allow_refs=True` parameters -/
   | instSetAsync (i : IId) (n : Name) (v : Obj)
+  /-- `obj.param._set_name(v)` on the constructed object (`as_uninitialized`) -/
+  | setName (i : IId) (v : Obj)
+  /-- `obj.param._generate_name()` on the constructed object (`as_uninitialized`; what the deep copy
+  of a Parameterized default of an `instantiate=True` parameter undergoes) -/
+  | genName (i : IId)
+  /-- `w = obj.param.watch(boom, n, what='constant'); with edit_constant(obj): pass; unwatch(w)` where
+  `boom` raises: an `edit_constant` whose entry is interrupted by a raising watcher of the flag -/
+  | failingEntry (i : IId) (n : Name)
   /-- `raise RuntimeError()` -/
   | raise
   /-- `with edit_constant(obj): body` -/
@@ -153,6 +165,9 @@ def instantiated (s : St) (i : IId) (x : Inst) (n : Name) (p : PId) : Except Res
       let x' := { x with iparams := aset x.iparams n ip }
       .ok (setInst { s with heap := s.heap ++ [q] } i x', x', ip)
 
+/-- src: String._validate_value: only a string (or None, `allow_None`) is accepted -/
+def rejects (s : St) (q : Param) (v : Obj) : Bool := q.strOnly && s.nonStr.contains v
+
 /-- src: Parameter.__set__: `_old = obj._param__private.values.get(self.name, self.default)` -/
 def guardOld (x : Inst) (n : Name) (q : Param) : Obj :=
   match aget x.values n with | some o => o | none => q.default
@@ -163,6 +178,8 @@ def guardedStore (s : St) (i : IId) (x : Inst) (n : Name) (ip : PId) (v : Obj) :
   match s.heap[ip]? with
   | none => (s, .stuck)
   | some q =>
+    -- `self._validate(val)` comes before the guard
+    if rejects s q v then (s, .valueError) else
     if q.constant || q.readonly then
       if q.readonly then (s, .typeError)
       else
@@ -259,7 +276,9 @@ def applyKw (s : St) (c : CId) : List (Name × Obj) → List (Name × Obj) → E
     | some (p, _) =>
       match s.heap[p]? with
       | none => .error .stuck
-      | some q => if q.readonly then .error .typeError else applyKw s c kw (aset vals n v)
+      | some q =>
+        if rejects s q v then .error .valueError
+        else if q.readonly then .error .typeError else applyKw s c kw (aset vals n v)
 
 /-! ### `edit_constant` -/
 
@@ -268,6 +287,26 @@ def pobjOf (s : St) (x : Inst) (n : Name) : Option PId :=
   match aget x.iparams n with
   | some ip => some ip
   | none => (descriptor s x.cls n).map (·.1)
+
+/-- src: as_uninitialized around `self.name = v`: with `initialized` switched off no per-instance copy
+is created and the guard stores into a constant; the flag is switched back afterwards.  (A read-only
+`name`, or a value `String` rejects, makes the wrapped call raise; `as_uninitialized` restores the
+flag in a `finally` since 0d30e59.) -/
+def renameCore (s : St) (i : IId) (v : Obj) : St × Res :=
+  match s.insts[i]? with
+  | none => (s, .stuck)
+  | some x =>
+    match pobjOf s x "name" with
+    | none => (s, .skip)
+    | some gp =>
+      match s.heap[gp]? with
+      | none => (s, .stuck)
+      | some q =>
+        -- a rejected value: the wrapped call raises ValueError, `as_uninitialized` switches the flag
+        -- back in its `finally`, the object is as it was (and still locked)
+        if rejects s q v then (s, .valueError)
+        else if q.readonly then (s, .typeError)
+        else (setInst s i { x with values := aset x.values "name" v }, .ok)
 
 /-- src: edit_constant, before `yield`: every Parameter object of the union whose `constant` is
 true is set to false and remembered -/
@@ -351,7 +390,8 @@ def step (s : St) : Op → St × Res
         -- read-only: `__set__(None, value)` raises TypeError — on the class's own Parameter, or on the
         -- copy-on-write copy just installed, which is then deleted again (nothing was stored): either
         -- way nothing changes
-        if q.readonly then (s, .typeError)
+        if rejects s q v then (s, .valueError)     -- `_validate` first; rolled back like the read-only case
+        else if q.readonly then (s, .typeError)
         else
           -- `if owning_class != mcs`: copy.copy, `type.__setattr__`; then `default = val`
           let (s1, p1) := if owner = c then (s, p) else
@@ -371,6 +411,30 @@ def step (s : St) : Op → St × Res
     match getParamCore s i n with
     | .error e => (s, e)
     | .ok (s1, _) => (s1, .ok)
+  | .setName i v => renameCore s i v
+  | .genName i =>
+    -- `'%s%05d' % (cls.__name__, object_count)`: a new string object
+    match renameCore s i s.nextObj with
+    | (s1, .ok) => ({ s1 with nextObj := s.nextObj + 1 }, .ok)
+    | r => r
+  | .failingEntry i n =>
+    -- `_register_watcher`: unknown name → ValueError; `self_[n].watchers`: the per-instance copy
+    match s.insts[i]? with
+    | none => (s, .stuck)
+    | some x =>
+      match descriptor s x.cls n with
+      | none => (s, .valueError)
+      | some _ =>
+        match getParamCore s i n with
+        | .error e => (s, e)
+        | .ok (s1, ip) =>
+          match s1.heap[ip]? with
+          | none => (s1, .stuck)
+          | some q =>
+            -- entry loop inside the `try` (e2d814e): the watcher raises when the copy's flag is cleared,
+            -- the `finally` clause puts every flag cleared so far back; a non-constant copy is never
+            -- touched and the empty block runs
+            if q.constant then (s1, .runtimeError) else (s1, .ok)
   | .raise => (s, .runtimeError)
   | .block i body =>
     -- src: edit_constant: flip, run the body, `finally` restore, re-raise
@@ -397,21 +461,22 @@ def run (s : St) (ops : List Op) : St := ops.foldl (fun s op => (step s op).1) s
 /-- one `class K(bases): n = param.Parameter(default=…, constant=…, readonly=…, allow_refs=…) …` statement.
 Parameter objects are numbered per class: the declared ones in declaration order
 (`Parameter.__init__`: `readonly ⇒ constant`), then the class's own copy of `name`, created by the
-metaclass when it assigns `cls.name = <class name>` (constant, not read-only; its default is the
-class-name object `npool + c`). -/
+metaclass when it assigns `cls.name = <class name>` (a constant, not read-only `String`; its default
+is the class-name object `npool + c`). -/
 def declare (npool : Nat) (s : St) (d : List CId × List (Name × Bool × Bool × Obj × Bool)) : St :=
   let c := s.classes.length
   let (dict, heap) := d.2.foldl (fun (acc : List (Name × PId) × List Param) e =>
       (aset acc.1 e.1 acc.2.length,
        acc.2 ++ [{ constant := e.2.1 || e.2.2.1, readonly := e.2.2.1, default := e.2.2.2.1,
                    allowRefs := e.2.2.2.2 }])) ([], s.heap)
-  { s with heap := heap ++ [{ constant := true, readonly := false, default := npool + c }],
+  { s with heap := heap ++ [{ constant := true, readonly := false, default := npool + c, strOnly := true }],
            classes := s.classes ++ [{ mro := d.1, dict := aset dict "name" heap.length, nameObj := npool + c }] }
 
 /-- the state after all class statements of a history; value objects `0 … npool-1` are the pool,
 `npool + c` the class names, the following ones generated instance names -/
-def initState (npool : Nat) (decls : List (List CId × List (Name × Bool × Bool × Obj × Bool))) : St :=
-  { decls.foldl (declare npool) { heap := [], classes := [], insts := [], nextObj := 0 } with
+def initState (npool : Nat) (decls : List (List CId × List (Name × Bool × Bool × Obj × Bool)))
+    (nonStr : List Obj := []) : St :=
+  { decls.foldl (declare npool) { heap := [], classes := [], insts := [], nextObj := 0, nonStr := nonStr } with
     nextObj := npool + decls.length }
 
 /-! ### Flags as seen from an instance / a class -/
